@@ -316,8 +316,8 @@ def main(argv=None):
         mine = [r for r in res if r.get("section") == si]
         rep.add_results(nm, mine, sum(1 for it in items if it["section"] == si) - len(mine), exhaustive=False)
     import superrec2.render.layout as L, superrec2.utils.geometry as G, superrec2.render.tikz as T
-    rep.functions = R.source_digest(L.compute, L._compute_branches, L._add_losses, L._layout_branches, L._layout_subtrees, L._finalize_layout,
-                                    G.Rect, G.Position, G.Size, T.render, T._tikz_draw_branches, T._tikz_draw_fork)
+    rep.functions = R.safe_digest(lambda: R.source_digest(L.compute, L._compute_branches, L._add_losses, L._layout_branches, L._layout_subtrees, L._finalize_layout,
+                                    G.Rect, G.Position, G.Size, T.render, T._tikz_draw_branches, T._tikz_draw_fork))
     rep.bounds = {"reconciliations": f"seeded inputs: {n3} with 2-3 object leaves (up to {6 if q else 30} valid reconciliations each from the independent enumerator), "
                                      f"{n4} with 4 leaves, {n5} with 5-6 leaves; 40% of labelled inputs drawn with synteny labels",
                   "numeric": "every node width/height a positive real (one pair per node up to 4 leaves, one pair per node kind above); "
